@@ -38,8 +38,25 @@ struct RcSrc : Src
 
 // Runs one case: bookkeeping, watchdog, oracle. Returns the failure message
 // ("" if the property held).
+#ifndef VF_SHRINK_SECONDS
+#define VF_SHRINK_SECONDS 20
+#endif
+
 inline std::string run_case(const h::Case& c)
 {
+    // Shrinking budget: rapidcheck has no cap of its own and a case with thousands of
+    // choices can take hours to shrink. Once the budget after the first failure is used up,
+    // every further shrink candidate is reported as passing without being run, which ends
+    // the shrink with the smallest failing case found so far (already saved). This clock
+    // never decides a verdict.
+    static double first_failure_at = -1;
+    {
+        struct timespec ts;
+        clock_gettime(CLOCK_MONOTONIC, &ts);
+        double now = ts.tv_sec + ts.tv_nsec * 1e-9;
+        if (first_failure_at >= 0 && cfg().driver == "rc" && now - first_failure_at > VF_SHRINK_SECONDS)
+            return "";
+    }
     std::string text = to_text(c);
     set_current_case(text);
 #ifdef VF_PER_CASE_RESET
@@ -73,6 +90,12 @@ inline std::string run_case(const h::Case& c)
     }
     if (!msg.empty())
     {
+        if (first_failure_at < 0)
+        {
+            struct timespec ts;
+            clock_gettime(CLOCK_MONOTONIC, &ts);
+            first_failure_at = ts.tv_sec + ts.tv_nsec * 1e-9;
+        }
         st.failures++;
         if (!cfg().art_prefix.empty())
         {
